@@ -852,11 +852,48 @@ def finish(ctx, cases, nontrivial):
     return ctx.finish(trusted_base=TRUSTED)
 
 
+def known_edge_rounding(ctx):
+    """The four directed inputs of the open finding F-C20-3 (known_findings.json): binary64 rounding of the index arithmetic for
+    corners within 1e-13 degree of a cell edge / tile border makes the literal statement fail by a few ulps.  Each is judged here in
+    exact rational arithmetic on the doubles handed in and returned (independent of the Coq models); all four carry the signature of
+    that finding.  Everything else the check finds -- in particular any deviation outside the proved margin -- is reported as usual."""
+    from fractions import Fraction as F
+    from typhon.topography import SRTM30
+    half, cell = F(1, 240), F(1, 120)
+
+    def report(what, args):
+        ctx.fail("failing-input", what, case={"known": "F-C20-3", "args": [float(a).hex() for a in args]}, signature="float-edge-rounding")
+    try:
+        r = (10.0, 10.0, 10.000000000000002, 10.1)
+        la, _ = SRTM30.get_native_grids(*r)
+        if len(la) == 0:
+            report(f"get_native_grids{r} returns no latitude row for a non-degenerate rectangle (elevation raises ValueError): "
+                   "90 - lat_max rounds to 80.0", r)
+        r = (-53.99166666666669, 10.0625, -52.96041666666669, 11.0625)
+        la, _ = SRTM30.get_native_grids(*r)
+        if len(la) and F(float(la.min())) - half > F(r[0]):
+            report(f"get_native_grids{r}: the lowest cell edge lies {float(F(float(la.min())) - half - F(r[0])):.2e} degree ABOVE lat_min "
+                   "(the block does not cover the rectangle)", r)
+        r = (10.0625, 88.775, 11.0625, 89.80625)
+        _, lo = SRTM30.get_native_grids(*r)
+        if len(lo) and F(r[1]) - (F(float(lo.min())) - half) >= cell:
+            report(f"get_native_grids{r}: the block extends {float(F(r[1]) - (F(float(lo.min())) - half)):.15f} degree (a whole cell or "
+                   "more) beyond lon_min", r)
+        r = (-11.3, -60.000000000000014, -1.0, -50.0)
+        tl = SRTM30.get_tiles(*r)
+        if F(r[1]) < -60 and "w100n40" not in tl:
+            report(f"get_tiles{r} = {tl} omits w100n40 / w100s10 although the rectangle reaches {float(-60 - F(r[1])):.2e} degree into "
+                   "them (lon_min % 360 rounds to 300.0)", r)
+    except Exception as e:  # noqa
+        ctx.fail("failing-input", f"a directed edge-rounding input raised {type(e).__name__}: {e}", signature="edge-rounding-raises")
+
+
 def run(ctx):
     translate_table(ctx)
     ctx.prove("Props/C20.v", extra_targets=["Model/C20_float.v", "Model/C20_margin.v"])
     cases = gen_cases(ctx)
     nt = check_cases(ctx, cases)
+    known_edge_rounding(ctx)
     return finish(ctx, cases, nt)
 
 
